@@ -30,7 +30,7 @@ LEVEL_NOTE = "Trusts ref_sgml.py and the generator; layouts the property leaves 
 DESIGN_REF = "DESIGN.md §3 C02"
 EXHAUSTIVE = {"quick": "all trees <=4 nodes x all per-leaf rendering choices x 3 fillers",
               "thorough": "all trees <=5 nodes x all per-leaf rendering choices x 3 fillers"}
-MIN_COUNTERS = {"quick": {"exhaustive_trees": 1000, "sampled_trees": 300}, "thorough": {"exhaustive_trees": 10000, "sampled_trees": 3000}}
+MIN_COUNTERS = {"quick": {"exhaustive_trees": 1000, "sampled_trees": 300}, "thorough": {"exhaustive_trees": 5000, "sampled_trees": 100000}}
 
 
 def shards(tier):
@@ -157,7 +157,7 @@ def run_shard(ctx):
 
     # (b) sampled large trees
     rng = ctx.rng
-    n_rand = (2400 if ctx.tier == "quick" else 40000) // ctx.nshards
+    n_rand = (2400 if ctx.tier == "quick" else 160000) // ctx.nshards
     for j in range(n_rand):
         tree = render.random_tree(rng, maxnodes=rng.choice([8, 30, 120, 400]), maxdepth=rng.choice([3, 6, 12]))
         ctx.count("sampled_trees")
@@ -173,7 +173,7 @@ def run_shard(ctx):
     from vf.oracles import ref_decl
 
     classes = list(ref_decl.all_classes().items())
-    per = 1 if ctx.tier == "quick" else 6
+    per = 1 if ctx.tier == "quick" else 40
     for ci, (name, cls) in enumerate(classes):
         if ci % ctx.nshards != ctx.shard:
             continue
